@@ -27,6 +27,8 @@ Open Scope N_scope.
 Definition block_size : N := Params.c04_block_size.
 Definition overlapped : N := Params.c04_overlapped.
 Definition endgame_slack : N := Params.c04_endgame_slack.
+(* RequestList::choked: does the early return also require an empty stalled bucket? (extracted from the source) *)
+Definition choke_checks_stalled : bool := 0 <? Params.c04_choked_checks_stalled.
 
 (* ---- request-list entries (BlockTransfer as seen from one RequestList) ---- *)
 Record entry := mkE { e_i : N; e_o : N; e_valid : bool; e_stalled : bool }.
@@ -290,11 +292,12 @@ Definition accept (s : state) (ev : event) : option state :=
   | Choke p =>
       match get_conn s p with
       | Some c =>
-          (* RequestList::choked: nothing moves when queued and unordered are both empty *)
-          match c_q c, c_u c with
-          | [], [] => Some (set_conn s p (Some (mkC (c_have c) (c_interested c) false (c_q c) (c_u c) (c_s c) (c_c c)
+          (* RequestList::choked: nothing moves when queued and unordered are both empty
+             (and, in the repaired code, the stalled bucket too) *)
+          match c_q c, c_u c, (if choke_checks_stalled then c_s c else []) with
+          | [], [], [] => Some (set_conn s p (Some (mkC (c_have c) (c_interested c) false (c_q c) (c_u c) (c_s c) (c_c c)
                                                    (c_t c) (c_cancels c) (c_aff c))))
-          | _, _ => Some (set_conn s p (Some (mkC (c_have c) (c_interested c) false [] [] []
+          | _, _, _ => Some (set_conn s p (Some (mkC (c_have c) (c_interested c) false [] [] []
                                                  (c_c c ++ c_q c ++ c_u c ++ c_s c) (c_t c) (c_cancels c) (c_aff c))))
           end
       | None => None
